@@ -15,12 +15,19 @@ stay confined to the batch above):
   * boundary assignments: bit-fields 0, 1, 2**n-1, 2**n, 2**n+1, -1, integers / array entries / enum values min, max, min-1,
     max+1 on all-zero, all-ones and random instances: rejected with an error, or only bits of that field (as determined by
     single-bit probing of the reader) change and a representable value reads back.
+
+In-place histories (harness/u4_c17.py): structures and unions with container-valued members (integer arrays, 2-D arrays, nested and
+inline structures, arrays of structures, unions, arrays of unions, up to three levels), parsed or keyword-initialised with private
+copies (never default-constructed: F8), changed WITHOUT going through the instance's `__setattr__` (`x.a[i] = v`, `x.a[i] ^= m`,
+`x.ps[i].f = v`, `x.s.r[i] = v`, `x.u.a[i] = v`, ...); after every change `==` / `!=` (both orders), the hash of equal hashable
+instances and `bool()` of four twins (all changes / the same changes / all but the last / untouched) are compared with the
+property's predicate applied recursively (same type and every field equal, structure-valued fields field by field).
 """
 from __future__ import annotations
 
 import itertools
 
-from .. import defs, impl, refimpl, s6_c17
+from .. import defs, impl, refimpl, s6_c17, u4_c17
 from ..common import Case, Result, mkrng
 from ..structprops import rand_bytes
 
@@ -37,7 +44,9 @@ def run(env) -> Result:
                 "templates), loaded compiled and interpreted; pairs of instances (identical bytes, one differing field, other class with the same "
                 "layout); init positional/keyword/partial; every single-field assignment of fixed-size structures (dump locality). s6_c17: unusual field names with a differing pair / "
                 "only-non-zero instance for every field, hash-then-assign histories against a never-hashed twin, boundary-value assignments with "
-                "bit-level locality. distinct = "
+                "bit-level locality. u4_c17: in-place changes of container-valued members (array elements, fields of structures in arrays / nested "
+                "structures, below unions and arrays of unions) of parsed / keyword-initialised structures and unions, ==/!=/hash/bool of four twins "
+                "against the recursive field-wise predicate. distinct = "
                 "(definition, instance bytes, operation); non-trivial = >= 2 fields")
     dc = impl.dc()
     rnd = mkrng(env["seed"], "c17")
@@ -192,6 +201,8 @@ def run(env) -> Result:
                         viol(f"assigning field {fk._name} changed bytes outside [{lo},{hi}) or did not store the value", cd, sig)
     # unusual field names (every field: differing pair / only non-zero field), hash histories, boundary-value assignments
     s6_c17.run(env, res, viol, mkrng(env["seed"], "c17:s6"), 6 if tier == "quick" else 80)
+    # in-place changes of container-valued members (bypassing __setattr__): equality / hash / bool against the recursive field-wise predicate
+    u4_c17.run(env, res, viol, mkrng(env["seed"], "c17:u4"), 40 if tier == "quick" else 800)
     res.sample({"field_counts": counts, "colliding_names": RISKY[:8]})
     return res
 
